@@ -12,6 +12,10 @@ CHECKS = {
         technique='TLA+ state machine of the category reader model-checked exhaustively by TLC; TLC-generated texts replayed into Category.parse/str and real calls trace-validated against the spec',
         text='CatReader.tla is checked exhaustively on a bounded universe of values x decorations (RoundTrip, PrintStable, FlatRejected, NeverStuck); every initial state of the emit universe is replayed into the real parser/printer, and those events plus all shipped category strings and random decorated/flattened texts are accepted or rejected by the trace specification CatTrace.tla',
         ref='6/C05'),
+    'C13': dict(
+        technique='TLA+ laws (CatLaws.tla) and a KeyedStore state machine model-checked by TLC; TLC-emitted universe pairs and container histories replayed on real Category objects, dict and set, and trace-validated',
+        text='TLC checks the equivalence / erasure laws on every pair of a bounded universe and enumerates every container history of length 4 over 3 keys; the universe pairs and histories are replayed on real objects built three ways (constructors, parser, operators) and every ==, !=, hash, ^, text comparison, clear_features and dict/set operation is judged by ValueTrace.tla',
+        ref='6/C13'),
 }
 NOT_YET = 'check not built yet (build in progress; see DESIGN.md section 12)'
 
